@@ -286,11 +286,18 @@ func (w *msWorld) step() bool {
 	case 2: // FromMap
 		v := w.maps[c.Choose(len(w.maps))]
 		n := c.Choose(4)
+		fill := len(w.keys) >= 18 && c.Choose(2) == 0 // fan-out universe: take every key at once
+		if fill {
+			n = len(w.keys)
+			w.probes["frommap-whole-universe"]++
+		}
 		hm := map[string]int{}
 		// colliding with existing keys on purpose
 		for i := 0; i < n; i++ {
 			k := w.key()
-			if len(v.model) > 0 && c.Choose(2) == 0 {
+			if fill {
+				k = w.keys[i]
+			} else if len(v.model) > 0 && c.Choose(2) == 0 {
 				ks := sortedKVs(v.model)
 				k = ks[c.Choose(len(ks))].k
 			}
@@ -522,7 +529,15 @@ func (w *msWorld) step() bool {
 
 func msKeys(c *simcore.Choices) []string {
 	var out []string
-	switch c.Choose(3) {
+	switch c.Choose(4) {
+	case 3:
+		// fan-out under a key that holds a value itself: enough one-byte keys to cross the node sizes
+		// (4, 16, 48) in both directions, plus the empty key
+		n := 17 + c.Choose(40)
+		for i := 0; i < n; i++ {
+			out = append(out, string([]byte{byte(7 + i*4)}))
+		}
+		out = append(out, "")
 	case 0:
 		out = []string{"", "a", "b", "aa", "ab", "ba", "abc", "abd", "b0"}
 	case 1:
